@@ -101,7 +101,76 @@ def r_counts(rec):
     return False, "argument-count rule agrees with the real % operator on 12 templates x tuples of length 0..5"
 
 
-REPLAYERS = {"pyanalyze.format_strings.ConversionSpecifier.accept_no_mvv": r_accept, "C17.D14": w_d14,
+def _all_args_used(template, arglist):
+    """unused arguments are reported by a documented stricter lint: only exact uses are compared both ways"""
+    import string
+    npos = len([a for a in arglist.split(",") if a.strip() and "=" not in a])
+    kws = {a.split("=")[0].strip() for a in arglist.split(",") if "=" in a}
+    used_pos, used_kw, auto = set(), set(), 0
+    def walk(t):
+        nonlocal auto
+        for _, field, spec, _ in string.Formatter().parse(t):
+            if field is None:
+                continue
+            name = field.split(".")[0].split("[")[0]
+            if name == "":
+                used_pos.add(auto)
+                auto += 1
+            elif name.isdigit():
+                used_pos.add(int(name))
+            else:
+                used_kw.add(name)
+            if spec:
+                walk(spec)
+    try:
+        walk(template)
+    except ValueError:
+        return False
+    return used_pos >= set(range(npos)) and used_kw >= kws
+
+
+def search_str_format():
+    """str.format templates x argument lists against the real formatter, through the checker"""
+    from replay.checkcode import check_code
+    templates = ["{}", "{} {}", "{0} {0}", "{0} {1}", "{1} {0}", "{x}", "{0.real}", "{0.real} {0.imag}", "{} {x}", "{{}}", "{0} {x} {0}",
+                 "{!r}", "{:>4}", "{0:>{1}}", "{} {} {}", "{2}", "{x} {y}"]
+    arglists = ["", "1", "1, 2", "1, 2, 3", "1, x=2", "x=2", "x=2, y=3"]
+    lines = ["def f() -> None:"]
+    cases = []
+    for t in templates:
+        for a in arglists:
+            expr = f"{t!r}.format({a})"
+            try:
+                eval(expr)
+                ok = True
+            except (IndexError, KeyError, ValueError, AttributeError, TypeError):
+                ok = False
+            cases.append((expr, ok, _all_args_used(t, a)))
+            lines.append(f"    print({expr})")
+    res = check_code("\n".join(lines) + "\n")
+    flagged = {f["lineno"] for f in res if f.get("code") is not None and f["code"].name in ("incompatible_call", "bad_format_string", "incompatible_argument")}
+    for i, (expr, ok, exact) in enumerate(cases):
+        lineno = i + 2
+        if ok and exact and lineno in flagged:
+            return f"{expr} formats under CPython but is diagnosed"
+        if not ok and lineno not in flagged:
+            return f"{expr} raises under CPython but is not diagnosed"
+    return None
+
+
+def r_bounded(rec):
+    devs = [d for d in deviations() if classify(d) != "D14" and (d[0], d[1]) != (False, "b")]
+    if devs:
+        d = devs[0]
+        return True, f"pattern {'b' if d[0] else ''}'%{d[1]}' % ({d[2]!r},): CPython {'formats' if d[3] else 'raises'}, pyanalyze errors={d[4]}"
+    for fn in (search_counts, search_str_format):
+        msg = fn()
+        if msg:
+            return True, msg
+    return False, "%-format and str.format diagnostics agree with CPython on the bounded universe"
+
+
+REPLAYERS = {"C17.bounded": r_bounded, "pyanalyze.format_strings.ConversionSpecifier.accept_no_mvv": r_accept, "C17.D14": w_d14,
              "pyanalyze.format_strings.PercentFormatString.accept_tuple_args_no_mvv": r_counts,
              "pyanalyze.format_strings.PercentFormatString.get_serial_specifiers": r_counts,
              "pyanalyze.format_strings.StarConversionSpecifier.accept": r_counts}
